@@ -13,6 +13,11 @@ can produce, with the acquisition order inside each block, for an arbitrary stri
   non-empty, strictly ascending and duplicate-free.  Multi-key blocks through `SetOps.lockPoses_spec` (`sortedLockPoses`); all other blocks
   hold one stripe.  `lockSeq_blocks_ascending`: the same for the blocks of `Exec.lockSeq`.
 * `DL.step_ok` / `DL.reach_ok` — `DL.ThreadOk` (the hypothesis of `DL.progress`) is an invariant of `DL.Step`.
+* **`lockProg_within`** (+ `lockProg_stripes_within`, `lockProg_write_scopes`, `lockProg_none`) — table-wide: every stripe in any run of
+  `lockProg stripe env args rounds` is `stripe k` for a key `k` of `Exec.lockPlan env args` (the keys `CheckTTL` is called on are plan
+  keys), and a write scope occurs only where the plan says write, for the write-locking readers `zrange` / `zrank` / `xrange`, or as
+  `CheckTTL`'s reap directly behind its read look at the same single stripe (`Within`).  The hard-wired write scopes of DEL, MSET, SETEX,
+  RENAME, LMOVE, SMOVE, S*STORE, BLPOP/BRPOP are justified by `table_hardWrite`: their rows of `footTable` have write footprints.
 * **`table_deadlock_free`** — any number `n` of clients, each running any list of commands (KEYS included: `CmdRun` lets it take any
   sequence of single-stripe blocks), each command acquiring its stripes block after block as one of the runs of its lock program (the
   choice may depend on the keyspace and on the other clients — it is universally quantified) and releasing everything before its
@@ -349,3 +354,378 @@ example : ClientRun (fun _ => 7) [({ now := 0 }, [ofStr "RENAME", [1], [2]]), ({
   simpa using ClientRun.cons h (ClientRun.cons h2 ClientRun.nil)
 
 end Exec
+
+/-! ### `lockProg_within`: every scope of every run is keyed by the lock plan, and write scopes occur only where the plan says so -/
+namespace Exec
+open Resp (Reply Bytes)
+
+/-- the keys of a lock plan -/
+def Footprint.keyList : Footprint → List Bytes
+| .keys ks _ => ks
+| _ => []
+
+/-- the plan locks in write mode -/
+def Footprint.isWrite : Footprint → Bool
+| .keys _ w => w
+| _ => false
+
+/-- **a run within a plan**: `S` = the stripes of the plan's keys, `allowW` = the plan (or a documented exception) allows write scopes.
+    Every scope holds stripes of `S` only; a write scope where `allowW` is false occurs only as the second half of `CheckTTL`'s
+    look-then-reap pair: a read scope on one stripe immediately followed by a write scope on the same single stripe. -/
+inductive Within (S : List Nat) (allowW : Bool) : List LBlock → Prop
+| nil : Within S allowW []
+| scope {w : Bool} {ps : List Nat} {rest : List LBlock} :
+    (∀ p ∈ ps, p ∈ S) → (w = true → allowW = true) → Within S allowW rest → Within S allowW ((w, ps) :: rest)
+| reap {p : Nat} {rest : List LBlock} : p ∈ S → Within S allowW rest → Within S allowW ((false, [p]) :: (true, [p]) :: rest)
+
+theorem Within.append {S : List Nat} {a : Bool} {x y : List LBlock} (hx : Within S a x) (hy : Within S a y) : Within S a (x ++ y) := by
+  induction hx with
+  | nil => exact hy
+  | scope h1 h2 _ ih => exact Within.scope h1 h2 ih
+  | reap h1 _ ih => exact Within.reap h1 ih
+
+/-- every stripe of every scope of a run within a plan is a stripe of the plan -/
+theorem Within.stripes {S : List Nat} {a : Bool} {r : List LBlock} (h : Within S a r) : ∀ b ∈ r, ∀ p ∈ b.2, p ∈ S := by
+  induction h with
+  | nil => intro b hb; cases hb
+  | scope h1 _ _ ih =>
+    intro b hb
+    rcases List.mem_cons.mp hb with rfl | hb
+    · exact h1
+    · exact ih b hb
+  | reap h1 _ ih =>
+    intro b hb
+    rcases List.mem_cons.mp hb with rfl | hb
+    · intro p hp; rw [List.mem_singleton.mp hp]; exact h1
+    · rcases List.mem_cons.mp hb with rfl | hb
+      · intro p hp; rw [List.mem_singleton.mp hp]; exact h1
+      · exact ih b hb
+
+/-- where the plan does not allow it, a write scope is `CheckTTL`'s reap: one stripe, directly after the read look at that stripe -/
+theorem Within.writes {S : List Nat} {r : List LBlock} (h : Within S false r) :
+    ∀ (pre : List LBlock) (b : LBlock) (post : List LBlock), r = pre ++ b :: post → b.1 = true →
+      ∃ p, p ∈ S ∧ b = (true, [p]) ∧ ∃ pre', pre = pre' ++ [(false, [p])] := by
+  induction h with
+  | nil => intro pre b post e; cases pre <;> cases e
+  | @scope w ps rest h1 h2 _ ih =>
+    intro pre b post e hb
+    cases pre with
+    | nil =>
+      simp only [List.nil_append, List.cons.injEq] at e
+      obtain ⟨rfl, _⟩ := e
+      exact absurd (h2 hb) (by decide)
+    | cons c pre =>
+      simp only [List.cons_append, List.cons.injEq] at e
+      obtain ⟨rfl, e⟩ := e
+      obtain ⟨p, hp, hb', pre', hpre⟩ := ih pre b post e hb
+      exact ⟨p, hp, hb', (w, ps) :: pre', by rw [hpre]; rfl⟩
+  | @reap p rest h1 _ ih =>
+    intro pre b post e hb
+    cases pre with
+    | nil =>
+      simp only [List.nil_append, List.cons.injEq] at e
+      obtain ⟨rfl, _⟩ := e
+      cases hb
+    | cons c pre =>
+      simp only [List.cons_append, List.cons.injEq] at e
+      obtain ⟨rfl, e⟩ := e
+      cases pre with
+      | nil =>
+        simp only [List.nil_append, List.cons.injEq] at e
+        obtain ⟨rfl, _⟩ := e
+        exact ⟨p, h1, rfl, [], rfl⟩
+      | cons d pre =>
+        simp only [List.cons_append, List.cons.injEq] at e
+        obtain ⟨rfl, e⟩ := e
+        obtain ⟨q, hq, hb', pre', hpre⟩ := ih pre b post e hb
+        exact ⟨q, hq, hb', (false, [p]) :: (true, [p]) :: pre', by rw [hpre]; rfl⟩
+
+/-- every run of the program is within the plan -/
+def LProg.PW (S : List Nat) (a : Bool) (p : LProg) : Prop := ∀ r ∈ p.runs, Within S a r
+
+/-- every run of the program, put behind a read look at stripe `p`, is within the plan -/
+def LProg.PWAfter (S : List Nat) (a : Bool) (p : Nat) (q : LProg) : Prop := ∀ r ∈ q.runs, Within S a ((false, [p]) :: r)
+
+variable {S : List Nat} {a : Bool}
+
+theorem no_w {a : Bool} : false = true → a = true := fun e => nomatch e
+
+theorem pw_eps : (LProg.eps).PW S a := by
+  intro r hr; simp only [LProg.runs, List.mem_singleton] at hr; subst hr; exact Within.nil
+
+theorem pw_blk {w : Bool} {ps : List Nat} (h : ∀ p ∈ ps, p ∈ S) (hw : w = true → a = true) : (LProg.blk w ps).PW S a := by
+  intro r hr; simp only [LProg.runs, List.mem_singleton] at hr; subst hr; exact Within.scope h hw Within.nil
+
+theorem pw_single {w : Bool} {p : Nat} (h : p ∈ S) (hw : w = true → a = true) : (LProg.blk w [p]).PW S a :=
+  pw_blk (fun q hq => by rw [List.mem_singleton.mp hq]; exact h) hw
+
+theorem pw_alt {x y : LProg} (hx : x.PW S a) (hy : y.PW S a) : (LProg.alt x y).PW S a := by
+  intro r hr
+  unfold LProg.runs at hr
+  rcases List.mem_append.mp hr with hr | hr
+  · exact hx r hr
+  · exact hy r hr
+
+theorem pw_seq {x y : LProg} (hx : x.PW S a) (hy : y.PW S a) : (LProg.seq x y).PW S a := by
+  intro r hr
+  unfold LProg.runs at hr
+  obtain ⟨u, hu, hr⟩ := List.mem_flatMap.mp hr
+  obtain ⟨v, hv, rfl⟩ := List.mem_map.mp hr
+  exact (hx u hu).append (hy v hv)
+
+theorem pw_dite {c : Prop} [Decidable c] {x y : LProg} (hx : c → x.PW S a) (hy : ¬ c → y.PW S a) : (if c then x else y).PW S a := by
+  split
+  · exact hx ‹_›
+  · exact hy ‹_›
+
+theorem pw_ite {c : Prop} [Decidable c] {x y : LProg} (hx : x.PW S a) (hy : y.PW S a) : (if c then x else y).PW S a := by
+  split <;> assumption
+
+/-- a program behind a read look -/
+theorem pw_look {p : Nat} {q : LProg} (h : q.PWAfter S a p) : (LProg.seq (.blk false [p]) q).PW S a := by
+  intro r hr
+  unfold LProg.runs at hr
+  obtain ⟨u, hu, hr⟩ := List.mem_flatMap.mp hr
+  obtain ⟨v, hv, rfl⟩ := List.mem_map.mp hr
+  simp only [LProg.runs, List.mem_singleton] at hu
+  subst hu
+  exact h v hv
+
+theorem pwa_of_pw {p : Nat} {q : LProg} (hp : p ∈ S) (h : q.PW S a) : q.PWAfter S a p := fun r hr =>
+  Within.scope (fun x hx => by rw [List.mem_singleton.mp hx]; exact hp) (fun e => nomatch e) (h r hr)
+
+theorem pwa_alt {p : Nat} {x y : LProg} (hx : x.PWAfter S a p) (hy : y.PWAfter S a p) : (LProg.alt x y).PWAfter S a p := by
+  intro r hr
+  unfold LProg.runs at hr
+  rcases List.mem_append.mp hr with hr | hr
+  · exact hx r hr
+  · exact hy r hr
+
+/-- the reap scope directly behind the look, then `q` -/
+theorem pwa_reap {p : Nat} {q : LProg} (hp : p ∈ S) (h : q.PW S a) : (LProg.seq (.blk true [p]) q).PWAfter S a p := by
+  intro r hr
+  unfold LProg.runs at hr
+  obtain ⟨u, hu, hr⟩ := List.mem_flatMap.mp hr
+  obtain ⟨v, hv, rfl⟩ := List.mem_map.mp hr
+  simp only [LProg.runs, List.mem_singleton] at hu
+  subst hu
+  exact Within.reap hp (h v hv)
+
+theorem pwa_reap_end {p : Nat} (hp : p ∈ S) : (LProg.blk true [p]).PWAfter S a p := by
+  intro r hr
+  simp only [LProg.runs, List.mem_singleton] at hr
+  subst hr
+  exact Within.reap hp Within.nil
+
+theorem pw_ttl {p : Nat} (hp : p ∈ S) : (ttl p).PW S a :=
+  pw_look (pwa_alt (pwa_of_pw hp pw_eps) (pwa_reap_end hp))
+
+theorem pw_ttlStop {p : Nat} {main : LProg} (hp : p ∈ S) (h : main.PW S a) : (ttlStop p main).PW S a :=
+  pw_look (pwa_alt (pwa_of_pw hp h) (pwa_reap hp (pw_alt pw_eps h)))
+
+theorem pw_multi {w : Bool} (stripe : Bytes → Nat) (keys : List Bytes) (hs : ∀ k ∈ keys, stripe k ∈ S) (hw : w = true → a = true) :
+    (multi w stripe keys).PW S a := by
+  unfold multi
+  have hm := (SetOps.lockPoses_spec stripe keys).2
+  split
+  · exact pw_eps
+  · rename_i p ps he
+    refine pw_blk (fun q hq => ?_) hw
+    rw [← he] at hq
+    obtain ⟨k, hk, rfl⟩ := (hm q).mp hq
+    exact hs k hk
+
+theorem pw_seqAll : ∀ (l : List LProg), (∀ p ∈ l, p.PW S a) → (seqAll l).PW S a
+| [], _ => pw_eps
+| p :: ps, h => pw_seq (h p List.mem_cons_self) (pw_seqAll ps fun q hq => h q (List.mem_cons_of_mem _ hq))
+
+theorem pw_seqAll_map (f : Bytes → LProg) (l : List Bytes) (h : ∀ k ∈ l, (f k).PW S a) : (seqAll (l.map f)).PW S a :=
+  pw_seqAll _ fun p hp => by obtain ⟨k, hk, rfl⟩ := List.mem_map.mp hp; exact h k hk
+
+theorem pw_union (stripe : Bytes → Nat) : ∀ (ks acc : List Bytes), (∀ k ∈ ks, stripe k ∈ S) → (∀ k ∈ acc, stripe k ∈ S) →
+    (unionProg stripe ks acc).PW S a
+| [], acc, _, ha => by
+  unfold unionProg
+  exact pw_multi stripe _ (fun k hk => ha k (List.mem_reverse.mp hk)) (fun e => nomatch e)
+| k :: ks, acc, hk, ha => by
+  unfold unionProg
+  have hk0 : stripe k ∈ S := hk k List.mem_cons_self
+  have hks : ∀ x ∈ ks, stripe x ∈ S := fun x hx => hk x (List.mem_cons_of_mem _ hx)
+  have hka : ∀ x ∈ k :: acc, stripe x ∈ S := fun x hx => by
+    rcases List.mem_cons.mp hx with rfl | hx
+    · exact hk0
+    · exact ha x hx
+  exact pw_look (pwa_alt (pwa_of_pw hk0 (pw_union stripe ks _ hks hka))
+    (pwa_reap hk0 (pw_alt (pw_union stripe ks _ hks ha) (pw_union stripe ks _ hks hka))))
+
+theorem pw_bpopItem (stripe : Bytes → Nat) {k : Bytes} (hk : stripe k ∈ S) (ha : a = true) : (bpopItem stripe k).PW S a :=
+  pw_seq (pw_ttl hk) (pw_single hk fun _ => ha)
+
+theorem pw_bpopPrefixes (stripe : Bytes → Nat) (ha : a = true) : ∀ (ks : List Bytes), (∀ k ∈ ks, stripe k ∈ S) → (bpopPrefixes stripe ks).PW S a
+| [], _ => pw_eps
+| [k], h => pw_bpopItem stripe (h k List.mem_cons_self) ha
+| k :: k' :: ks, h =>
+  pw_seq (pw_bpopItem stripe (h k List.mem_cons_self) ha)
+    (pw_alt pw_eps (pw_bpopPrefixes stripe ha (k' :: ks) fun x hx => h x (List.mem_cons_of_mem _ hx)))
+
+theorem pw_bpopProg (stripe : Bytes → Nat) (ha : a = true) (ks : List Bytes) (h : ∀ k ∈ ks, stripe k ∈ S) : ∀ (r : Nat), (bpopProg stripe ks r).PW S a
+| 0 => pw_bpopPrefixes stripe ha ks h
+| r + 1 => pw_alt (pw_bpopPrefixes stripe ha ks h)
+    (pw_seq (pw_seqAll_map _ _ fun k hk => pw_bpopItem stripe (h k hk) ha) (pw_bpopProg stripe ha ks h r))
+
+/-! #### the table: the executors whose program write-locks unconditionally have a write footprint -/
+
+/-- the commands whose lock program holds a hard-wired write scope -/
+def hardWrite : List String :=
+  ["del", "mset", "setex", "rename", "lmove", "smove", "sunionstore", "sinterstore", "sdiffstore", "blpop", "brpop"]
+
+theorem isCmd_mono {name : Bytes} {l l' : List String} (h : isCmd name l = true) (hs : ∀ x ∈ l, x ∈ l') : isCmd name l' = true := by
+  unfold isCmd at *
+  rw [List.any_eq_true] at *
+  obtain ⟨x, hx, e⟩ := h
+  exact ⟨x, hs x hx, e⟩
+
+/-- every row of the footprint table named in `hardWrite` has a write footprint (whatever the argument vector) -/
+theorem table_hardWrite : ∀ p ∈ footTable, isCmd (ofStr p.1) hardWrite = true →
+    ∀ (args ks : List Bytes) (w : Bool), p.2.2.1 args = .keys ks w → w = true := by
+  unfold footTable
+  repeat' (first | exact (fun _ h => absurd h List.not_mem_nil) | refine List.forall_mem_cons.mpr ⟨?_, ?_⟩)
+  all_goals (intro hc args ks w h)
+  all_goals first
+    | exact absurd hc (by decide +kernel)
+    | (dsimp only [fpAll, fpMSet, fpK4, fpRename, fpLMove, fpSMove, fpStore, fpBPop] at h
+       repeat' split at h
+       all_goals (cases h <;> rfl))
+
+/-- the row of the footprint table a plan with keys comes from -/
+theorem plan_entry {env : Env} {args ks : List Bytes} {w : Bool} (h : lockPlan env args = .keys ks w) :
+    ∃ p ∈ footTable, ofStr p.1 = lower (args.headD []) ∧ p.2.2.1 args = .keys ks w := by
+  have hf : footprint args = .keys ks w := by
+    rcases lockPlan_cases env args with e | e
+    · rw [← e]; exact h
+    · rw [e] at h; cases h
+  unfold footprint at hf
+  split at hf
+  · cases hf
+  · rename_i name rest
+    split at hf
+    · rename_i p' hp'
+      unfold lookupFoot at hp'
+      obtain ⟨p, hp, rfl⟩ := Option.map_eq_some_iff.mp hp'
+      refine ⟨p, List.mem_of_find?_eq_some hp, ?_, hf⟩
+      have := List.find?_some hp
+      simpa using this
+    · cases hf
+
+theorem plan_hardWrite {env : Env} {args ks : List Bytes} {w : Bool} (h : lockPlan env args = .keys ks w)
+    (hc : isCmd (lower (args.headD [])) hardWrite = true) : w = true := by
+  obtain ⟨p, hp, hn, hfp⟩ := plan_entry h
+  exact table_hardWrite p hp (by rw [hn]; exact hc) args ks w hfp
+
+/-- **`lockProg_within`**: every run of the lock program of a call (every command name, argument vector, environment, bound on the
+    BLPOP rounds, stripe function) is within its lock plan: each scope holds stripes `stripe k` of keys `k` of `Exec.lockPlan env args`
+    only (the keys `CheckTTL` is called on are among them), and a write scope occurs only where the plan says write, or for
+    `zrange` / `zrank` / `xrange` (write-locking readers), or as `CheckTTL`'s reap directly behind its look -/
+theorem lockProg_within (stripe : Bytes → Nat) (env : Env) (args : List Bytes) (rounds : Nat) :
+    (lockProg stripe env args rounds).PW ((lockPlan env args).keyList.map stripe)
+      ((lockPlan env args).isWrite || isCmd (lower (args.headD [])) writeLocksForRead) := by
+  unfold lockProg
+  dsimp only
+  cases hplan : lockPlan env args with
+  | none => exact pw_eps
+  | whole => exact pw_eps
+  | keys ks w =>
+    dsimp only [Footprint.keyList, Footprint.isWrite]
+    have hW : ∀ l : List String, isCmd (lower (args.headD [])) l = true → (∀ x ∈ l, x ∈ hardWrite) →
+        ∀ b : Bool, b = true → (w || isCmd (lower (args.headD [])) writeLocksForRead) = true := by
+      intro l hc hs _ _
+      rw [plan_hardWrite hplan (isCmd_mono hc hs)]; rfl
+    have hS : ∀ l : List Bytes, (∀ k ∈ l, k ∈ ks) → ∀ k ∈ l, stripe k ∈ ks.map stripe :=
+      fun l hl k hk => List.mem_map.mpr ⟨k, hl k hk, rfl⟩
+    have hS0 := hS ks (fun _ h => h)
+    refine pw_dite (fun hc => ?_) (fun _ => ?_)
+    · exact pw_seqAll_map _ _ fun k hk => pw_single (hS0 k hk) (hW _ hc (by decide) _)
+    refine pw_dite (fun hc => ?_) (fun _ => ?_)
+    · exact pw_seqAll_map _ _ fun k hk => pw_seq (pw_ttl (hS0 k hk)) (pw_single (hS0 k hk) no_w)
+    refine pw_dite (fun hc => ?_) (fun _ => ?_)
+    · exact pw_seqAll_map _ _ fun k hk => pw_ttlStop (hS0 k hk) (pw_single (hS0 k hk) no_w)
+    refine pw_dite (fun hc => ?_) (fun _ => ?_)
+    · exact pw_bpopProg stripe (hW _ hc (by decide) true rfl) ks hS0 rounds
+    refine pw_dite (fun hc => ?_) (fun _ => ?_)
+    · exact pw_multi stripe ks hS0 (hW _ hc (by decide) _)
+    refine pw_dite (fun hc => ?_) (fun _ => ?_)
+    · exact pw_seqAll_map _ _ fun k hk => pw_single (hS0 k hk) (hW _ hc (by decide) _)
+    refine pw_dite (fun hc => ?_) (fun _ => ?_)
+    · have hw := hW _ hc (by decide) true rfl
+      cases ks with
+      | nil => exact pw_eps
+      | cons old rest => exact pw_ttlStop (hS0 _ List.mem_cons_self) (pw_multi stripe _ hS0 fun _ => hw)
+    refine pw_dite (fun hc => ?_) (fun _ => ?_)
+    · have hw := hW _ hc (by decide) true rfl
+      split
+      · exact pw_ttlStop (hS0 _ List.mem_cons_self)
+          (pw_seq (pw_ttl (hS0 _ (List.mem_cons_of_mem _ List.mem_cons_self))) (pw_multi stripe _ hS0 fun _ => hw))
+      · exact pw_eps
+    refine pw_dite (fun hc => ?_) (fun _ => ?_)
+    · have hw := hW _ hc (by decide) true rfl
+      split
+      · exact pw_seq (pw_ttl (hS0 _ (List.mem_cons_of_mem _ List.mem_cons_self)))
+          (pw_ttlStop (hS0 _ List.mem_cons_self) (pw_multi stripe _ hS0 fun _ => hw))
+      · exact pw_eps
+    refine pw_dite (fun hc => ?_) (fun _ => ?_)
+    · have hw := hW _ hc (by decide) true rfl
+      exact pw_seq (pw_seqAll_map _ _ fun k hk => pw_ttl (hS0 k hk)) (pw_multi stripe ks hS0 fun _ => hw)
+    refine pw_dite (fun hc => ?_) (fun _ => ?_)
+    · exact pw_seq (pw_seqAll_map _ _ fun k hk => pw_ttl (hS0 k hk)) (pw_multi stripe ks hS0 no_w)
+    refine pw_dite (fun hc => ?_) (fun _ => ?_)
+    · exact pw_union stripe ks [] hS0 (fun _ h => nomatch h)
+    · split
+      · refine pw_dite (fun _ => ?_) (fun _ => ?_)
+        · exact pw_ttlStop (hS0 _ List.mem_cons_self) (pw_single (hS0 _ List.mem_cons_self) id)
+        · exact pw_seq (pw_ttl (hS0 _ List.mem_cons_self)) (pw_single (hS0 _ List.mem_cons_self) id)
+      · exact pw_eps
+
+/-- **every stripe in any run of `lockProg` is the stripe of a key of `lockPlan`** -/
+theorem lockProg_stripes_within (stripe : Bytes → Nat) (env : Env) (args : List Bytes) (rounds : Nat) :
+    ∀ run ∈ (lockProg stripe env args rounds).runs, ∀ b ∈ run, ∀ p ∈ b.2, ∃ k ∈ (lockPlan env args).keyList, p = stripe k := by
+  intro run hr b hb p hp
+  obtain ⟨k, hk, e⟩ := List.mem_map.mp ((lockProg_within stripe env args rounds run hr).stripes b hb p hp)
+  exact ⟨k, hk, e.symm⟩
+
+/-- **write scopes only where the plan says write**: a call whose plan is a read plan and whose command is not one of the
+    write-locking readers (`zrange`, `zrank`, `xrange`) takes a write scope only as `CheckTTL`'s reap — on one stripe of a plan key,
+    directly behind the read look at that stripe -/
+theorem lockProg_write_scopes (stripe : Bytes → Nat) (env : Env) (args : List Bytes) (rounds : Nat)
+    (hr : (lockPlan env args).isWrite = false) (hx : isCmd (lower (args.headD [])) writeLocksForRead = false) :
+    ∀ run ∈ (lockProg stripe env args rounds).runs, ∀ (pre : List LBlock) (b : LBlock) (post : List LBlock),
+      run = pre ++ b :: post → b.1 = true →
+      ∃ k ∈ (lockPlan env args).keyList, b = (true, [stripe k]) ∧ ∃ pre', pre = pre' ++ [(false, [stripe k])] := by
+  intro run hrun pre b post e hb
+  have h := lockProg_within stripe env args rounds run hrun
+  rw [hr, hx] at h
+  obtain ⟨p, hp, hb', pre', hpre⟩ := Within.writes h pre b post e hb
+  obtain ⟨k, hk, rfl⟩ := List.mem_map.mp hp
+  exact ⟨k, hk, hb', pre', hpre⟩
+
+/-- nothing is locked without a plan -/
+theorem lockProg_none (stripe : Bytes → Nat) (env : Env) (args : List Bytes) (rounds : Nat) (h : (lockPlan env args).keyList = []) :
+    ∀ run ∈ (lockProg stripe env args rounds).runs, ∀ b ∈ run, b.2 = [] := by
+  intro run hr b hb
+  have hs := (lockProg_within stripe env args rounds run hr).stripes b hb
+  rw [h, List.map_nil] at hs
+  cases hb2 : b.2 with
+  | nil => rfl
+  | cons p ps => exact absurd (hs p (by rw [hb2]; exact List.mem_cons_self)) List.not_mem_nil
+
+/-! the statements are not vacuous: `GET k` on an expired key (look, reap, then the read scope), `LMOVE a b LEFT RIGHT` -/
+example : [(false, [3]), (true, [3]), (false, [3])] ∈ (lockProg (fun _ => 3) { now := 0 } [ofStr "GET", [1]]).runs :=
+  (accepts_iff_mem_runs _ _).mp (by decide +kernel)
+example : (lockPlan { now := 0 } [ofStr "GET", [1]]).isWrite = false ∧ isCmd (lower ([ofStr "GET", [1]].headD [])) writeLocksForRead = false := by
+  decide +kernel
+example : (lockPlan { now := 0 } [ofStr "LMOVE", [1], [2], ofStr "LEFT", ofStr "RIGHT"]).keyList = [[1], [2]] := by decide +kernel
+
+end Exec
+
+#print axioms Exec.lockProg_within
+#print axioms Exec.lockProg_stripes_within
+#print axioms Exec.lockProg_write_scopes
